@@ -180,7 +180,18 @@ class C09(ValueCheck):
                              st.builds(lambda xs: ["mul_vec", ["list"] + xs], st.lists(ch, min_size=2, max_size=4)))
         t = gen.tree(leaves, unary=("neg",), binary=("add", "sub", "mul", "mul"), max_leaves=8 if tier == "quick" else 12,
                      special=special)
-        return st.fixed_dictionaries({"e": t, "envs": gen.envs(names=SYMS, n=3)})
+        # products of two sums whose monomials cancel to a number (m * 1/m), inside a sum and under a coefficient:
+        # the collapsed-constant path of the sum x sum expansion
+        X, Y = ["symbol", "x"], ["symbol", "y"]
+        mono = st.sampled_from([X, Y, ["mul", X, Y], ["pow", X, ["integer", 2]], ["function_symbol", "f", ["list", X]],
+                                ["mul", ["integer", 2], X], ["pow", Y, ["integer", -1]]])
+        small = st.one_of(num, s, st.builds(lambda a, b: ["mul", a, b], num, s))
+        recip = st.builds(lambda m, a, b, c, rest, k: ["add", rest, ["mul", c, ["mul", ["add", m, a], ["add", ["pow", m, ["integer", -k]], b]]]],
+                          mono, small, small, num, st.one_of(s, num, st.builds(lambda a, b: ["add", a, b], s, num)), st.integers(1, 2))
+        recip2 = st.builds(lambda m, a, b, c, rest: ["sub", rest, ["mul", c, ["mul", ["add_vec", ["list", m, a, ["pow", m, ["integer", -1]]]],
+                                                                          ["add_vec", ["list", ["pow", m, ["integer", -1]], b, m]]]]],
+                           mono, small, small, num, s)
+        return st.fixed_dictionaries({"e": st.one_of(t, t, t, recip, recip2), "envs": gen.envs(names=SYMS, n=3)})
 
     FUNCS_ENV = {"f": lambda u: 0.5 * u * u + 0.25 * u + 1}
 
